@@ -111,6 +111,42 @@ def make(n, kinds, orders="rev", jobs_hi=2, atleast=False):
     return fn
 
 
+def scale_fn(g):
+    """Wide graph (133 tasks): a shared dependency is referenced again after 128 other tasks were looked up."""
+    from vlib import scale, fakeos
+    import conductor.cli.run as cli_run
+    shared_kind = ("run_command", "run_experiment")[g.choose("shared_kind", 2)]
+    shared_last = g.flag("shared_listed_last")
+    again = g.flag("again")
+    jobs = (1, 3)[g.choose("jobs", 2)]
+    specs = scale.wide_shared(130, shared_kind, shared_last)
+    proj = hrun.Project()
+    try:
+        proj.write_tasks(specs)
+        # (completion order is fixed here - oldest running child first - the order dimension is explored on small graphs)
+        kern = fakeos.Kernel(fakeos.Sched(), clock=fakeos.Clock())
+        res = hrun.invoke(cli_run.main, hrun.run_ns(task_identifier="//:root", again=again, jobs=jobs), str(proj.root), kern, timeout=120)
+        D = "133 tasks: root <- [late, c0..c129, shared], late <- shared; shared=%s listed %s, again=%s jobs=%d" % (
+            shared_kind, "last" if shared_last else "first", again, jobs)
+        if isinstance(res.status, str):
+            g.require(False, "exec:crash:" + res.status[4:], "%s; %s" % (res.exc, D))
+        info = hrun.parse_run_output(res)
+        names = [p.name for p in kern.tasks()]
+        dup = sorted(set(n for n in names if names.count(n) > 1))
+        g.require(not dup, "exec:needed-task-run-twice", "%s spawned more than once; %s" % (dup, D))
+        g.require(len(names) == 132 and res.status == 0, "exec:spawn-count", "%d spawns (expected 132), status %r; %s" % (len(names), res.status, D))
+        g.require(info["progress"] == [(i + 1, 133) for i in range(133)], "exec:progress", "progress %s...%s; %s" % (info["progress"][:2], info["progress"][-2:], D))
+        g.require(not (set(x for x in info["cached"]) & set(x for _, x in info["running"])), "exec:cached-and-executed", "%s; %s" % (info["cached"], D))
+        # ordering (C01): late starts after shared finished
+        sh = [p for p in kern.tasks() if p.name == "shared"][0]
+        la = [p for p in kern.tasks() if p.name == "late"][0]
+        g.require(sh.t_exit is not None and sh.t_exit < la.t_spawn, "order:dependent-started-before-dependency-finished", "late at %s, shared [%s,%s]; %s" % (la.t_spawn, sh.t_spawn, sh.t_exit, D))
+        g.goal("graph of more than 128 tasks")
+        return {"nontrivial": True, "sample": {"case": D, "spawns": len(names)}}
+    finally:
+        proj.cleanup()
+
+
 def spaces(tier):
     goals = ["cached experiment hides part of the closure", "dependency shared by two executed tasks",
              "task behind a cached result is not executed"]
@@ -122,6 +158,9 @@ def spaces(tier):
                 "N<=3, kinds {experiment, command}, git history c0 <- c1 = HEAD through the fake git, each recorded version made at "
                 "c0 or c1, flags {default, --again, --at-least c0, --at-least c1}", depth=7,
                 goals=["--at-least forces a cached experiment to re-run"])]
+    sp.append(Space("scale-wide-133", scale_fn, "133 tasks (a group over 131 commands, one of them depending on a shared task that the root "
+                    "lists again 128 tasks later); shared task kind, listing position, --again, jobs {1,3}", depth=4,
+                    goals=["graph of more than 128 tasks"]))
     if tier == "thorough":
         sp.append(Space("n4-exp-cmd", make(4, ("run_experiment", "run_command"), jobs_hi=1),
                         "N=4, kinds {run_experiment, run_command}, cache bits, {default,--again}, jobs 1", depth=9,
